@@ -1,6 +1,7 @@
 package sym
 
 import (
+	"sync"
 	"fmt"
 	"go/types"
 	"os"
@@ -23,6 +24,7 @@ type Program struct {
 	OverlayFiles       []string
 	Known              map[string]bool // known-finding ids with status "known"
 	Params             map[string]int  // tier parameters readable through vrt.Param
+	harnessFn          sync.Map // *ssa.Function -> bool
 }
 
 // LoadConfig describes what to load.
